@@ -106,7 +106,9 @@ def profile(doc):
         toks['vis:' + str(b.get('vis'))] += 1
         for c, m in callers.get(k, {}).items():
             toks['by:' + c] += 2
-        methods.setdefault(owner, {})[b['name']] = {'path': k, 'tokens': dict(toks)}
+        names = {d['v']['l']: d['name'] for d in b.get('debug', []) if isinstance(d.get('v'), dict) and not d['v'].get('p')}
+        params = [[names.get(i), b['locals'][i]['ty']] for i in range(1, 1 + n)]
+        methods.setdefault(owner, {})[b['name']] = {'path': k, 'tokens': dict(toks), 'params': params}
     fields = {}
     for adt, a in doc['adts'].items():
         if a.get('kind') != 'struct':
@@ -254,7 +256,99 @@ def resolve(doc, ref=None):
             break
         doc = _rewrite(doc, {}, meth_map, field_map)
         meth_map, field_map = {}, {}
+    # --- parameter lists: a private method whose parameters were re-ordered, or whose unused `self` receiver was dropped, gets the
+    # reference order back (locals of its body and arguments of every call site are permuted; a dropped receiver becomes a dummy) ---
+    cur = profile(doc)
+    for owner, rms in ref['methods'].items():
+        for name, r in rms.items():
+            c = cur['methods'].get(owner, {}).get(name)
+            if not c or not r.get('params') or c['params'] == r['params'] or doc['bodies'][c['path']].get('vis') == 'pub':
+                continue
+            plan = _param_plan(r['params'], c['params'])
+            if plan is None or plan == list(range(len(r['params']))):
+                continue
+            _apply_param_plan(doc, c['path'], plan, r['params'])
+            notes.append({'kind': 'parameters', 'owner': owner, 'reference': name + '(' + ', '.join(str(p[0]) for p in r['params']) + ')',
+                          'current': name + '(' + ', '.join(str(p[0]) for p in c['params']) + ')', 'similarity': 1.0})
     return doc, notes
+
+
+def _param_plan(rp, cp):
+    """for each reference position the index of the current parameter that plays it (None: the dropped `self` receiver), or None if
+    the two lists are not the same parameters up to order / a dropped receiver"""
+    if len(cp) > len(rp):
+        return None
+    plan = [None] * len(rp)
+    used = set()
+    for j, (rn, rt) in enumerate(rp):          # same name and type
+        for i, (cn, ct) in enumerate(cp):
+            if i not in used and cn == rn and ct == rt:
+                plan[j] = i
+                used.add(i)
+                break
+    for j, (rn, rt) in enumerate(rp):          # same type, unambiguous (a renamed parameter)
+        if plan[j] is None:
+            cands = [i for i, (cn, ct) in enumerate(cp) if i not in used and ct == rt]
+            others = [j2 for j2, (rn2, rt2) in enumerate(rp) if plan[j2] is None and rt2 == rt]
+            if len(cands) == 1 and len(others) == 1:
+                plan[j] = cands[0]
+                used.add(cands[0])
+    if len(used) != len(cp):
+        return None
+    for j, (rn, rt) in enumerate(rp):
+        if plan[j] is None and not (rn == 'self' and j == 0):
+            return None
+    return plan
+
+
+def _map_locals(x, f):
+    if isinstance(x, dict):
+        if 'l' in x and 'p' in x and isinstance(x['p'], list):
+            x['l'] = f(x['l'])
+            for e in x['p']:
+                if isinstance(e, dict) and 'idx' in e and isinstance(e['idx'], int):
+                    e['idx'] = f(e['idx'])
+            return
+        for k, v in x.items():
+            if k != 'promoted':
+                _map_locals(v, f)
+    elif isinstance(x, list):
+        for v in x:
+            _map_locals(v, f)
+
+
+def _apply_param_plan(doc, path, plan, rp):
+    b = doc['bodies'][path]
+    n_cur = b['arg_count']
+    n_ref = len(plan)
+    shift = n_ref - n_cur
+    new_index = {0: 0}
+    for j, i in enumerate(plan):
+        if i is not None:
+            new_index[i + 1] = j + 1
+    for old in range(n_cur + 1, len(b['locals'])):
+        new_index[old] = old + shift
+    locals_ = [None] * (len(b['locals']) + shift)
+    for old, new in new_index.items():
+        locals_[new] = b['locals'][old]
+    for j, i in enumerate(plan):
+        if i is None:
+            locals_[j + 1] = {'ty': rp[j][1], 'adt': None}
+            b.setdefault('debug', []).append({'name': rp[j][0], 'v': {'l': j + 1, 'p': []}})
+    _map_locals(b['blocks'], lambda l: new_index[l])
+    for d in b.get('debug', []):
+        if isinstance(d.get('v'), dict) and 'l' in d['v'] and not (d['name'] == rp[0][0] and plan[0] is None and d['v']['l'] == 1 and d is b['debug'][-1]):
+            _map_locals(d['v'], lambda l: new_index[l])
+    b['locals'] = locals_
+    b['arg_count'] = n_ref
+    for ob in doc['bodies'].values():
+        for blk in ob['blocks']:
+            t = blk['term']
+            if t and t.get('k') == 'call' and (t.get('callee') == path or t.get('resolved') == path) and len(t.get('args', [])) == n_cur:
+                dummy = lambda j: {'const': {'ty': rp[j][1], 'dbg': 'absent receiver'}}
+                t['args'] = [t['args'][i] if i is not None else dummy(j) for j, i in enumerate(plan)]
+                if t.get('arg_tys'):
+                    t['arg_tys'] = [t['arg_tys'][i] if i is not None else rp[j][1] for j, i in enumerate(plan)]
 
 
 def _rewrite(doc, adt_map, meth_map, field_map):
